@@ -36,6 +36,23 @@ def instances(tier):
     ]
 
 
+def flood_scenarios():
+    """Hand-written: a server that keeps sending data that completes no message (non-final fragments, every 1-4 ticks, for far longer
+    than any configured time-out) while a ping or close time-out is armed.  The time-out must still end the connection: a client that
+    reads the whole flood reaches the `outlived` step and is recorded as hanging."""
+    out = []
+    for cfg, closing in ((TIMERS, False), (TIMERS, True), (PINGTO, False), (PINGTO, True), (CLOSEONLY, True),
+                         ({"poll": 5, "ping_rate": 0, "ping_timeout": 7, "close_timeout": 0, "auto_pong": True}, False)):
+        for first in ({"t": "f", "op": 2, "fin": 0, "pl": [1]}, {"t": "f", "op": 1, "fin": 0, "pl": [97]}):
+            for dt in (1, 2, 4):
+                frames = [dict(first)] + [{"t": "f", "op": 0, "fin": 0, "pl": [] if i % 2 else [98]} for i in range(59)]
+                sc = {"conns": [{"stream": [{"t": "http", "v": "ok"}] + frames,
+                                 "steps": [{"kind": "data", "items": 1, "dt": 0}] + [{"kind": "data", "items": 1, "dt": dt} for _ in frames] + [{"kind": "outlived"}]}],
+                      "connect_kwargs": dict(cfg), "react": {"ready#0": [["close"]]} if closing else {}}
+                out.append(sc)
+    return out
+
+
 LIVENESS_CFG = dict(HttpItems='HttpAll', Items='ItemsQ', Cfg='CfgTimers', MaxItems=1, ChunkMax=1, MaxIdle=3, Dts={0, 5},
                     Faults={"recv_error", "wait_raise"}, Reacts={"none", "close"}, ReactAt={"ready", "poll"}, MaxReacts=1)
 
@@ -65,6 +82,10 @@ def run(tier, seed):
     for cfgname, cfg in (('CfgIdle', IDLE), ('CfgTimers', TIMERS)):
         scs, logs, acc = tracevalid.validate(r, tier, cfgname, cfg, 300 if tier == 'quick' else 3000)
         extra_traces.extend(zip(scs, logs))
+    floods = flood_scenarios()
+    extra_traces.extend(zip(floods, pipeline.execute(floods)))
+    r.cov['flood_scenarios'] = len(floods)
+
     def variants(sc, b):
         out = [('base', sc)]
         if sessprop.sampled(sc, b, 9):
